@@ -843,7 +843,7 @@ func init() {
 	register(&Property{
 		ID:    "C05",
 		Level: "other",
-		Rules: []Rule{{"L1", ruleL1}, {"L2", ruleL2}, {"L3", ruleL3}, {"P1", ruleP1}, {"RC1", ruleRC1}, {"W1", ruleW1}, {"A1", ruleA1}, {"FL1", ruleFL1}, {"N1", ruleN1}, {"P2", ruleP2}, {"S1", ruleS1}, {"F2", ruleF2}, {"F6", ruleF6}, {"O6", ruleO6}},
+		Rules: []Rule{{"L1", ruleL1}, {"L2", ruleL2}, {"L3", ruleL3}, {"P1", ruleP1}, {"RC1", ruleRC1}, {"W1", ruleW1}, {"A1", ruleA1}, {"FL1", ruleFL1}, {"N1", ruleN1}, {"P2", ruleP2}, {"S1", ruleS1}, {"F2", ruleF2}, {"F6", ruleF6}, {"O6", ruleO6}, {"O3", ruleO3}, {"O3c", ruleO3c}},
 		Explanation: "Decides the synchronisation skeleton that every schedule relies on: L1 every access to Collection.root, version refcounts/chain fields/reclaimLater, node reclaim marks, Store.coll, the free lists and allocation statistics is made with its lock definitely held (must-held dataflow, callers included) or on an object unpublished in that function; L2 the lock-order graph is acyclic with no re-acquisition of a held mutex, and every Lock is released on every path; L3 no gkvlite lock can be held at any visitor/comparator call or file sink; P1 every version pin is released exactly as often as held on every path or transferred; RC1 the chain threshold of the publish function equals the collection's own reference plus the pins the publishing callers hold; W1 copy-on-write: structural fields of nodes/handles are written only on unpublished objects, in the allocator, or by the cache/persist accessors from the loader/writers; A1 Store.size only through sync/atomic; FL1 Flush pins coll[names[i]] for ascending i over a sorted names slice, all pins before any write; N1 no nil dereference of a may-be-(nil,nil) getter result (a concurrent delete of the last item would otherwise panic). NOT decided: that each read observes one version current during the call, absence of lost updates, refcount arithmetic beyond RC1.",
 		Assumptions: []string{"single mutator, single flusher (the property's own premise)", "lock identity is by field/variable, not by instance"},
 		ControlSrc:  controlC05,
